@@ -563,12 +563,34 @@ def decorated_package(base, inner=False):
                     host = body[0] if body is not None and len(body) else root
                     host.insert(0, etree.Comment(" a comment inside the tree "))
                     host.insert(1, etree.ProcessingInstruction("vf-inner", "1"))
-                    for p_ in root.iter("{urn:oasis:names:tc:opendocument:xmlns:text:1.0}p"):
+                    TXP = "{urn:oasis:names:tc:opendocument:xmlns:text:1.0}p"
+                    for p_ in root.iter(TXP):
                         c_ = etree.Comment("in a paragraph")
                         c_.tail = p_.text
                         p_.text = None
                         p_.insert(0, c_)
                         break
+                    # a comment and a processing instruction in the middle of running text (a template engine's
+                    # markers, a hand edit): the text after each of them belongs to the paragraph
+                    with_text = [p_ for p_ in root.iter(TXP) if p_.text and p_.text.strip() and len(p_.text) > 3]
+                    if with_text:
+                        p_ = with_text[0]
+                        t_ = p_.text
+                        c_ = etree.Comment(" note ")
+                        c_.tail = t_[2:]
+                        p_.text = t_[:2]
+                        p_.insert(0, c_)
+                    elif host.tag == "{%s}text" % OFFICE_NS and info.filename == "content.xml":
+                        p_ = etree.SubElement(host, TXP)
+                        p_.text = "alpha"
+                        c_ = etree.SubElement(p_, TXP)  # placeholder replaced below
+                        p_.remove(c_)
+                        c_ = etree.Comment(" note ")
+                        c_.tail = "beta"
+                        p_.append(c_)
+                        pi_ = etree.ProcessingInstruction("vf-mark", "x")
+                        pi_.tail = "gamma"
+                        p_.append(pi_)
                 data = etree.tostring(root.getroottree(), xml_declaration=True, encoding="UTF-8")
             zout.writestr(info, data, compress_type=zipfile.ZIP_STORED if info.filename == "mimetype" else zipfile.ZIP_DEFLATED)
     return out.getvalue()
